@@ -24,7 +24,7 @@ METRICS = ["ENERGY", "LATENCY", "ENERGY_DELAY_PRODUCT", "ENERGY|LATENCY", "ENERG
 
 def gen_cases(tier, seed):
     rnd = random.Random(f"C04-{seed}")
-    n = 40 if tier == "quick" else 500
+    n = 40 if tier == "quick" else 320
     cases = []
     for i in range(n):
         d = gs.gen_spec(rnd, rnd.choice(["mm1", "mv1", "ew1", "chain2", "chain2", "fanin2", "mvchain2"] + (["chain3"] if tier != "quick" else [])),
